@@ -2,8 +2,8 @@
 import ast
 
 from .astutil import fold, NotConstant, unparse, dotted
-from .bitcells import (Unsupported, Param, View, Bits, CU32, ModVal, XorVal, Maybe, TableVal, Opaque, FuncValue, TOP,
-                       PCell, INF, Record, RecordType, ClassValue, Obj, BoundMethod)
+from .bitcells import (Unsupported, Param, View, Bits, CU32, ModVal, XorVal, NegMask, Maybe, TableVal, Opaque, FuncValue, TOP,
+                       PCell, INF, Record, RecordType, ClassValue, Obj, BoundMethod, TableRef)
 
 CONSTS = (int, bool, str, type(None))
 STR_METHODS = {'lower', 'upper', 'strip', 'lstrip', 'rstrip', 'startswith', 'endswith', 'replace', 'casefold', 'title'}
@@ -98,6 +98,10 @@ class ExprMixin:
             return v
         if mm.written_by_functions(name) and not (name in facts.tables and mm.table_mode(name) == 'extended'):
             raise Unsupported('module-level name {!r} is modified by a function'.format(name))
+        if name in facts.tables and name in facts.consts and mm.stable(name):
+            v = TableRef(name)
+            mm.values[name] = v
+            return v
         if name in facts.consts and mm.stable(name):
             v = norm_const(facts.consts[name])
             mm.values[name] = v
@@ -163,8 +167,17 @@ class ExprMixin:
             raise Unsupported('class {} has members beyond annotated fields'.format(cdef.name))
         return RecordType(cdef.name, fields, defaults, is_nt)
 
+    def plain(self, v):
+        """a table used as an ordinary dict value (iteration, len, copies): only when no function writes to it"""
+        if isinstance(v, TableRef):
+            table, mode = self.table(v.name)
+            if mode != 'closed':
+                raise Unsupported('table {} grows at run time and is used as a whole'.format(v.name))
+            return norm_const(dict(table))
+        return v
+
     def is_static(self, v):
-        if isinstance(v, CONSTS) or isinstance(v, (Opaque, FuncValue, RecordType)):
+        if isinstance(v, CONSTS) or isinstance(v, (Opaque, FuncValue, RecordType, TableRef)):
             return True
         if isinstance(v, Record):
             return all(self.is_static(x) for x in v.values.values())
@@ -270,7 +283,10 @@ class ExprMixin:
             if isinstance(base, Record) and node.attr in base.values:
                 return base.values[node.attr]
             if isinstance(base, Obj) or type(base).__name__ == 'Super':
-                return self.get_attr(base, node.attr, st, node)
+                v = self.get_attr(base, node.attr, st, node)
+                if isinstance(v, TableRef) and node.attr in self.model.attr_mutations:
+                    raise Unsupported('attribute {} holds table {} and is written through elsewhere'.format(node.attr, v.name))
+                return v
             raise Unsupported('attribute .{} on abstract value'.format(node.attr))
         if isinstance(node, ast.Subscript):
             return self.subscript(node, st)
@@ -292,7 +308,7 @@ class ExprMixin:
             g = node.generators[i]
             if g.is_async:
                 raise Unsupported('async comprehension')
-            it = self.ev(g.iter, st)
+            it = self.plain(self.ev(g.iter, st))
             if isinstance(it, dict):
                 it = list(it.keys())
             if isinstance(it, range) and len(it) <= 4096:
@@ -338,6 +354,8 @@ class ExprMixin:
             return bool(v)
         if isinstance(v, (FuncValue, ClassValue, BoundMethod, Obj, RecordType)):
             return True
+        if isinstance(v, TableRef):
+            return bool(self.facts.tables[v.name])
         return None
 
     def boolop_value(self, node, st):
@@ -355,10 +373,17 @@ class ExprMixin:
         return last
 
     def subscript(self, node, st):
-        if isinstance(node.value, ast.Name) and self.is_table_name(node.value.id, st):
-            key = self.ev(node.slice, st)
-            return self.table_subscript(node.value.id, key, st, node)
         base = self.ev(node.value, st)
+        if st.dead:
+            return None
+        if isinstance(base, TableRef):
+            key = self.ev(node.slice, st)
+            return self.table_subscript(base.name, key, st, node)
+        if isinstance(base, Obj):
+            m = self.find_member(base.cls.name, '__getitem__')
+            if m is None or m[0] != 'func' or m[1].decorator_list or isinstance(node.slice, ast.Slice):
+                raise Unsupported('subscript of an instance of {}'.format(base.cls.name))
+            return self.call_def(m[1], '{}.__getitem__'.format(m[2]), [base, self.ev(node.slice, st)], {}, st)
         idx = self.ev(node.slice, st) if not isinstance(node.slice, ast.Slice) else None
         if isinstance(base, dict) and isinstance(idx, (str, int)):
             if idx not in base:
@@ -440,6 +465,7 @@ class ExprMixin:
                     return v, True
                 return None, 'dead'
         if isinstance(v, Param):
+            self.coerced.add(v.name)
             if caught is None:
                 if ('notint', v.name) in st.facts:
                     return v, False
@@ -477,7 +503,11 @@ class ExprMixin:
         if op is ast.Mod:
             if not (isinstance(b, int) and not isinstance(b, bool) and b > 0):
                 raise Unsupported('modulo by a non-constant: {}'.format(unparse(node)))
-            a = a if isinstance(a, (Param, ModVal)) else self.as_int_view(a, st, node)
+            if isinstance(a, ModVal):
+                if is_pow2(a.k) and is_pow2(b) and b <= a.k:
+                    return ModVal(a.x, b)
+                a = self.mod_as_bits(a, st, node)
+            a = a if isinstance(a, Param) else self.as_int_view(a, st, node)
             if isinstance(a, Bits) and is_pow2(b):
                 return a.derive(a.bits[:b.bit_length() - 1])
             if isinstance(a, (Param, View)):
@@ -529,6 +559,10 @@ class ExprMixin:
                 a, b = b, a
             if isinstance(b, int):
                 if b < 0:
+                    if isinstance(a, View) and a.trunc is None:
+                        return NegMask(a, ~b)
+                    if isinstance(a, Bits):
+                        return a.derive([bit if (b >> i) & 1 else 0 for i, bit in enumerate(a.bits)])
                     raise Unsupported('negative mask: {}'.format(unparse(node)))
                 if isinstance(a, View):
                     return self.mask_view(a, b, st, node)
@@ -559,7 +593,13 @@ class ExprMixin:
             if isinstance(a, Bits) and isinstance(b, int) and b >= 0:
                 if a.is_const():
                     return a.const() ^ b
+                if all(x == 0 or not (b >> i) & 1 for i, x in enumerate(a.bits)):
+                    return self.binop(ast.copy_location(ast.BinOp(left=node.left, op=ast.BitOr(), right=node.right), node), a, b, st)
                 return XorVal(a, b)
+            if isinstance(a, (Bits, View)) and isinstance(b, (Bits, View)):
+                ab, bb = self.to_bits(a, st, node), self.to_bits(b, st, node)
+                if all(x == 0 or y == 0 for x, y in zip(ab.bits, bb.bits)):
+                    return self.binop(ast.copy_location(ast.BinOp(left=node.left, op=ast.BitOr(), right=node.right), node), ab, bb, st)
         raise Unsupported('operator {} on abstract values: {}'.format(op.__name__, unparse(node)))
 
     def binop_shift(self, node, a, b, st, right):
@@ -576,6 +616,11 @@ class ExprMixin:
             raise Unsupported('right shift of {}'.format(unparse(node)))
         if isinstance(a, int):
             return a << b
+        if isinstance(a, View) and a.trunc is None:
+            lo, hi = self.view_range(a, st)
+            if lo < 0 or hi >= INF:
+                # (x << b) of a signed operand: stays a view until a mask cuts the field out
+                return View(a.src, a.ch, a.add, a.shift - b, None)
         ab = self.to_bits(a, st, node)
         return ab.derive([0] * b + list(ab.bits), keep_origin=False)
 
@@ -639,6 +684,8 @@ class ExprMixin:
             return 0, -1
         lo = min(c.lo + c.off(v.ch, v.add) if c.lo > -INF else -INF for c in cells)
         hi = max(c.hi + c.off(v.ch, v.add) if c.hi < INF else INF for c in cells)
+        if v.shift < 0:
+            return (-INF if lo <= -INF else lo << -v.shift), (INF if hi >= INF else hi << -v.shift)
         return (-INF if lo <= -INF else lo >> v.shift), (INF if hi >= INF else hi >> v.shift)
 
     def bit_source(self, v, st, top_bit, node):
@@ -670,8 +717,8 @@ class ExprMixin:
         if v.trunc is not None:
             mask &= (1 << v.trunc) - 1
         nbits = mask.bit_length()
-        src = self.bit_source(v, st, nbits - 1 + sh, node) if nbits else v.src
-        bits = [((src, i + sh) if (mask >> i) & 1 else 0) for i in range(nbits)]
+        src = self.bit_source(v, st, nbits - 1 + sh, node) if nbits and nbits - 1 + sh >= 0 else v.src
+        bits = [((src, i + sh) if (mask >> i) & 1 and i + sh >= 0 else 0) for i in range(nbits)]
         ev = {'src': v.src, 'node': node, 'mask': mask, 'shift': sh, 'ch': self.eff_channel(v, st), 'cells': [],
               'fn': self.fn_stack[-1] if self.fn_stack else '?'}
         self.masks.append(ev)
@@ -709,7 +756,7 @@ class ExprMixin:
                     '-inf' if lo <= -INF else lo, '+inf' if hi >= INF else hi, unparse(node)))
             w = hi.bit_length()
             sh = v.shift
-            src = self.bit_source(v, st, w - 1 + sh, node) if w else v.src
+            src = self.bit_source(v, st, w - 1 + sh, node) if w and w - 1 + sh >= 0 else v.src
             ch = self.eff_channel(v, st)
-            return Bits([(src, i + sh) for i in range(w)], None, frozenset([(v.src, ch)]))
+            return Bits([((src, i + sh) if i + sh >= 0 else 0) for i in range(w)], None, frozenset([(v.src, ch)]))
         raise Unsupported('value {} used as bits at {}'.format(v, unparse(node)))
